@@ -34,272 +34,291 @@ def _elem_class(fi, e):
     return None, None
 
 
-@rule("BL5", "every length field the writer emits equals the bytes that follow it", floor=14)
+def _field_size(prog, item):
+    """byte size of one serialised field given its symbolic value ('new', class qual, args, kws)"""
+    if not (isinstance(item, tuple) and item and item[0] == "new"):
+        return None
+    ci = prog.classes.get(item[1])
+    if ci is None:
+        return None
+    if ci.name == "Bytes":
+        a = item[2][0] if item[2] else None
+        if a is not None and a[0] == "const" and isinstance(a[1], bytes):
+            return len(a[1])
+        if a is not None and a[0] == "phi" and all(x[0] == "const" and isinstance(x[1], bytes) for x in a[2:4]) and len(a[2][1]) == len(a[3][1]):
+            return len(a[2][1])
+        return None
+    size = prog.class_const(ci, "size")
+    return size if isinstance(size, int) else None
+
+
+def _subst(x, old, new):
+    if x == old:
+        return new
+    if isinstance(x, tuple):
+        return tuple(_subst(y, old, new) for y in x)
+    return x
+
+
+@rule("BL5", "every length field the writer emits equals the bytes that follow it", floor=12)
 def bl5(ctx, R):
+    from .sym import Sym, show, alpha, same, contains, collect
     prog = ctx.prog
     wmod = prog.module("writer")
-    # ---- (a) string prefix
+    # ---- (a) string prefix:  self.bytes = pack('<L', len(X)) + X   with X the encoded content
     fi = prog.func("types.String.__init__")
-    enc_names = {}
-    for n in walk_body(fi.node):
-        if isinstance(n, ast.Assign) and isinstance(n.targets[0], ast.Name) and isinstance(n.value, ast.Call) \
-                and isinstance(n.value.func, ast.Attribute) and n.value.func.attr == "encode":
-            enc_names[n.targets[0].id] = n
+    env = Sym(prog, fi).env_at_end()
+    b = env.get("self.bytes")
     ok = False
-    detail = "self.bytes = pack('<L', len(X)) + X with X the encoded content"
-    for n in walk_body(fi.node):
-        if isinstance(n, ast.Assign) and any(isinstance(t, ast.Attribute) and t.attr == "bytes" for t in n.targets) \
-                and isinstance(n.value, ast.BinOp) and isinstance(n.value.op, ast.Add):
-            left, right = n.value.left, n.value.right
-            ldefs = _defs(fi, left.id) if isinstance(left, ast.Name) else [left]
-            for ld in ldefs:
-                if isinstance(ld, ast.Call) and call_name(ld) in ("_struct_pack", "struct.pack") and len(ld.args) == 2:
-                    fmt = prog.try_fold(ld.args[0], fi.module)
-                    arg = ld.args[1]
-                    measured = arg.args[0].id if isinstance(arg, ast.Call) and call_name(arg) == "len" and arg.args and isinstance(arg.args[0], ast.Name) else None
-                    appended = right.id if isinstance(right, ast.Name) else None
-                    ok = fmt == "<L" and measured is not None and measured == appended and measured in enc_names
-                    detail = "format %r, len(%s) prefixed to %s%s" % (fmt, measured, appended, "" if measured in enc_names else " (not the encoded bytes)")
-    R.check(ok, "types.String.__init__::length prefix", fi.where(), detail,
-            "the 4-byte length prefix of a string does not measure the encoded bytes appended after it (%s): non-ASCII text gets a wrong length" % detail)
-    # ---- (b) raw data index length
+    detail = "self.bytes = %s" % (show(alpha(b)) if b else None)
+    if b and b[0] == "binop" and b[1] == "+" and len(b[2]) == 2:
+        pre, body = b[2]
+        is_enc = body[0] == "method" and body[1] == "encode"
+        if pre[0] == "call" and pre[1] in ("_struct_pack", "struct.pack") and len(pre[2]) == 2 and pre[2][0] == ("const", "<L"):
+            ok = is_enc and pre[2][1] == ("len", body)
+    R.check(ok, "types.String.__init__::length prefix", fi.where(), "4-byte little-endian length of the encoded bytes, followed by those bytes",
+            "the length prefix of a string does not measure the encoded bytes appended after it (%s): non-ASCII text gets a wrong length" % detail[:160])
+    # ---- (b) raw data index length, per path
     fi = prog.func("writer.TdmsSegment.raw_data_index")
-    cfg = ctx.cfg(fi)
-    from .rules_resource import _controlling_tests
+    paths = Sym(prog, fi).function_paths()
     n_ret = 0
-    for rn in cfg.where(lambda n: n.kind == "return" and isinstance(n.ast.value, (ast.List, ast.Name))):
-        lst = rn.ast.value
-        if isinstance(lst, ast.Name):
-            ds = _defs(fi, lst.id)
-            if len(ds) != 1 or not isinstance(ds[0], ast.List):
-                R.undecided("writer.TdmsSegment.raw_data_index::return %s" % lst.id, fi.where(rn.ast), "returned list is built incrementally")
-                continue
-            # account for later appends to that list
-            extra = [c.args[0] for c in walk_body(fi.node) if isinstance(c, ast.Call) and call_name(c) == lst.id + ".append" and c.args]
-            elts = list(ds[0].elts) + extra
-            incremental = bool(extra)
-        else:
-            elts = list(lst.elts)
-            incremental = False
-        if not elts:
+    for guards, val, _env in paths:
+        gtxt = " and ".join(show(alpha(g)) for g in guards)
+        is_string_path = any(contains(g, lambda x: x == ("class", "types.String")) and not (g[0] == "not") for g in guards)
+        if val is None or val[0] != "list":
+            R.undecided("writer.TdmsSegment.raw_data_index::path [%s]" % gtxt[:60], fi.where(), "returned value is not a list literal on this path: %s" % (show(alpha(val))[:80] if val else None))
             continue
-        cname, ctor = _elem_class(fi, elts[0])
-        if cname == "Bytes":
-            v = prog.try_fold(ctor.args[0], wmod) if ctor.args else None
-            R.check(v == b"\xff\xff\xff\xff", "writer.TdmsSegment.raw_data_index::no-data header", fi.where(rn.ast),
-                    "objects without raw data get header 0xFFFFFFFF", "no-data header is %r" % (v,))
-            n_ret += 1
+        items = val[1]
+        if not items:
             continue
-        if cname != "Uint32" or not ctor.args:
-            R.undecided("writer.TdmsSegment.raw_data_index::return", fi.where(rn.ast), "first element is not a Uint32 length literal")
+        first = items[0]
+        n_ret += 1
+        if first[0] == "new" and first[1] == "types.Bytes":
+            a = first[2][0] if first[2] else None
+            R.check(a == ("const", b"\xff\xff\xff\xff") and len(items) == 1, "writer.TdmsSegment.raw_data_index::no-data header", fi.where(),
+                    "objects without raw data get header 0xFFFFFFFF", "no-data header is %s" % show(a))
             continue
-        k = prog.try_fold(ctor.args[0], wmod)
-        sizes = []
-        for e in elts[1:]:
-            cn, _ = _elem_class(fi, e)
-            sizes.append(_type_size(prog, wmod, cn) if cn else None)
-        tests = _controlling_tests(cfg, rn)
-        is_string_path = any("String" in unparse(t.ast) and "data_type" in unparse(t.ast) for t in tests)
         label = "string path" if is_string_path else "numeric path"
         key = "writer.TdmsSegment.raw_data_index::length literal (%s)" % label
-        n_ret += 1
-        if incremental:
-            # one literal for a list that grows on some path: check the longest and the shortest
-            base = [s for s in sizes[:len(ds[0].elts) - 1]]
-            R.check(False if None in sizes else (k == 4 + sum(base) and k == 4 + sum(sizes)), key, fi.where(rn.ast),
-                    "length %r matches on every path" % k,
-                    "length literal %r is used for index lists of %s bytes (+4): on the path that appends further fields the declared length is wrong" % (
-                        k, sorted({sum(base), sum(sizes)})))
+        if not (first[0] == "new" and first[1] == "types.Uint32" and first[2] and first[2][0][0] == "const"):
+            R.undecided(key, fi.where(), "length field is not a constant Uint32 on this path: %s" % show(first)[:80])
             continue
-        if None in sizes or "bytes" in sizes:
-            R.undecided(key, fi.where(rn.ast), "element sizes not all known: %s" % sizes)
+        k = first[2][0][1]
+        sizes = [_field_size(prog, it) for it in items[1:]]
+        if None in sizes:
+            R.undecided(key, fi.where(), "sizes of the index fields not all known: %s" % sizes)
             continue
-        R.check(k == 4 + sum(sizes), key, fi.where(rn.ast), "length %r == 4 + %s" % (k, "+".join(str(s) for s in sizes)),
-                "raw data index declares length %r but 4 + %s = %d bytes make up the index" % (k, "+".join(str(s) for s in sizes), 4 + sum(sizes)))
+        R.check(k == 4 + sum(sizes), key, fi.where(), "length %r == 4 + %s" % (k, "+".join(str(x) for x in sizes)),
+                "raw data index declares length %r but 4 + %s = %d bytes make up the index" % (k, "+".join(str(x) for x in sizes), 4 + sum(sizes)))
         if is_string_path:
-            last = elts[-1]
-            cn, c2 = _elem_class(fi, last)
-            dep = unparse(c2.args[0]) if c2 is not None and c2.args else ""
-            src = dep
-            if c2 is not None and c2.args and isinstance(c2.args[0], ast.Name):
-                src = " ".join(unparse(d) for d in _defs(fi, c2.args[0].id))
-            R.check(cn == "Uint64" and "object_data_size" in src, key + " total size", fi.where(rn.ast),
-                    "string index ends with the total data size from object_data_size", "string index does not end with Uint64(object_data_size(...))")
+            last = items[-1]
+            R.check(last[0] == "new" and last[1] == "types.Uint64" and contains(last, lambda x: isinstance(x, tuple) and x and x[0] == "sum"),
+                    key + " total size", fi.where(), "string index ends with the total data size (object_data_size)",
+                    "string index does not end with the total size of the string data")
         else:
-            R.check(len(elts) == 4, key + " fields", fi.where(rn.ast), "type, dimension, number of values",
-                    "numeric raw data index has %d fields" % (len(elts) - 1))
+            R.check(len(items) == 4, key + " fields", fi.where(), "type, dimension, number of values", "numeric raw data index has %d fields" % (len(items) - 1))
+        nv = items[3] if len(items) > 3 else None
+        R.check(nv is not None and nv[0] == "new" and nv[2] and nv[2][0] == ("len", ("attr", ("param", fi.params[1]), "data")), key + " value count", fi.where(),
+                "number of values is len(obj.data)", "the declared number of values is %s, not len(obj.data)" % (show(nv) if nv else None))
     if n_ret < 3:
         raise AnchorMissing("writer.TdmsSegment.raw_data_index: three return shapes (found %d)" % n_ret)
-    # number of values is len(obj.data) of the same obj whose data is written
-    nv = [d for d in _defs(fi, "num_values")]
-    R.check(any("len(obj.data)" in unparse(d) for d in nv), "writer.TdmsSegment.raw_data_index::number of values", fi.where(),
-            "value count is len(obj.data)", "the declared number of values is not len(obj.data)")
     # ---- (c) lead-in arithmetic
     fi = prog.func("writer.TdmsSegment.leadin")
-    appends = [c for c in walk_body(fi.node) if isinstance(c, ast.Call) and isinstance(c.func, ast.Attribute) and c.func.attr == "append" and c.args]
-    appends.sort(key=lambda c: (c.lineno, c.col_offset))
-    classes = []
-    for c in appends:
-        cn, ctor = _elem_class(fi, c.args[0])
-        classes.append((cn, ctor))
-    widths = [(4 if cn == "Bytes" else _type_size(prog, wmod, cn)) for cn, _ in classes]
-    R.check(widths == [4, 4, 4, 8, 8], "writer.TdmsSegment.leadin::field widths", fi.where(),
-            "tag, ToC, version, next segment offset, raw data offset = 4+4+4+8+8 bytes (reader: 28-byte lead-in, 'lQQ')",
-            "lead-in fields have widths %s; the format (and the reader) expects 4,4,4,8,8" % widths)
-    if len(classes) >= 5:
-        def src_of(ctor):
-            a = ctor.args[0] if ctor is not None and ctor.args else None
-            if isinstance(a, ast.Name):
-                ds = _defs(fi, a.id)
-                return ds[0] if len(ds) == 1 else a
-            return a
-        nso, rdo = src_of(classes[3][1]), src_of(classes[4][1])
-        ms = fi.params[2] if len(fi.params) > 2 else "metadata_size"
-        ok_nso = isinstance(nso, ast.BinOp) and isinstance(nso.op, ast.Add) and {unparse(nso.left), unparse(nso.right)} == {ms, "self._data_size()"}
-        R.check(ok_nso, "writer.TdmsSegment.leadin::next segment offset", fi.where(),
-                "next segment offset = metadata_size + self._data_size()",
-                "next segment offset is `%s`, not metadata_size + self._data_size(): the lead-in does not describe the bytes written" % (unparse(nso) if nso is not None else None))
-        R.check(isinstance(rdo, ast.Name) and rdo.id == ms, "writer.TdmsSegment.leadin::raw data offset", fi.where(),
-                "raw data offset = metadata_size", "raw data offset is `%s`, not the metadata size" % (unparse(rdo) if rdo is not None else None))
+    ds_f = prog.func("writer.TdmsSegment._data_size")
+    DS = Sym(prog, ds_f, ds_f.cls).function_value()
+    lp = Sym(prog, fi, fi.cls).function_paths()
+    ms = ("param", fi.params[2] if len(fi.params) > 2 else "metadata_size")
+    for guards, val, _env in lp:
+        if val is None or val[0] != "list":
+            R.undecided("writer.TdmsSegment.leadin::fields", fi.where(), "lead-in is not built as a list of fields: %s" % (show(val)[:80] if val else None))
+            continue
+        items = val[1]
+        widths = [_field_size(prog, it) for it in items]
+        R.check(widths == [4, 4, 4, 8, 8], "writer.TdmsSegment.leadin::field widths", fi.where(),
+                "tag, ToC, version, next segment offset, raw data offset = 4+4+4+8+8 bytes (reader: 28-byte lead-in, 'lQQ')",
+                "lead-in fields have widths %s; the format (and the reader) expects 4,4,4,8,8" % widths)
+        if len(items) >= 5:
+            nso = items[3][2][0] if items[3][0] == "new" and items[3][2] else None
+            rdo = items[4][2][0] if items[4][0] == "new" and items[4][2] else None
+            want = Sym(prog, fi, fi.cls)._binop("+", ms, DS)
+            R.check(nso is not None and same(nso, want), "writer.TdmsSegment.leadin::next segment offset", fi.where(),
+                    "next segment offset = metadata size + declared raw data size",
+                    "next segment offset is `%s`, not metadata_size + self._data_size(): the lead-in does not describe the bytes written" % (show(alpha(nso))[:120] if nso else None))
+            R.check(rdo == ms, "writer.TdmsSegment.leadin::raw data offset", fi.where(), "raw data offset = metadata size",
+                    "raw data offset is `%s`, not the metadata size" % (show(rdo) if rdo else None))
+            tag = items[0][2][0] if items[0][0] == "new" and items[0][2] else None
+            R.check(tag == ("phi", ("self", "is_index_file"), ("const", b"TDSh"), ("const", b"TDSm")) or tag == ("phi", ("not", ("self", "is_index_file")), ("const", b"TDSm"), ("const", b"TDSh")),
+                    "writer.TdmsSegment.leadin::tag", fi.where(), "TDSh for the index file, TDSm for the data file", "segment tag is `%s`" % (show(tag) if tag else None))
     fi = prog.func("writer.TdmsSegment.write")
     md_calls = [c for c in walk_body(fi.node) if isinstance(c, ast.Call) and call_name(c) == "self.metadata"]
     R.check(len(md_calls) == 1, "writer.TdmsSegment.write::metadata serialised once", fi.where(),
             "the bytes measured are the bytes written", "metadata() is called %d times: the measured and the written metadata can differ" % len(md_calls))
-    md_name = None
-    for n in walk_body(fi.node):
-        if isinstance(n, ast.Assign) and n.value in md_calls and isinstance(n.targets[0], ast.Name):
-            md_name = n.targets[0].id
-    size_defs = _defs(fi, "metadata_size")
-    ok_size = md_name is not None and any(isinstance(d, ast.Call) and call_name(d) == "sum" and md_name in [x.id for x in ast.walk(d) if isinstance(x, ast.Name)]
-                                          and ".bytes" in unparse(d) and "len(" in unparse(d) for d in size_defs)
-    R.check(ok_size, "writer.TdmsSegment.write::metadata size", fi.where(), "metadata_size = sum(len(v.bytes)) over the list that is written",
-            "metadata_size is not the summed byte length of the metadata list that is written")
-    writes = [c for c in walk_body(fi.node) if isinstance(c, ast.Call) and (call_name(c) in ("file.write", "self._write_data"))]
-    writes.sort(key=lambda c: c.lineno)
-    order = []
-    for c in writes:
-        t = unparse(c)
-        order.append("data" if "_write_data" in t else ("leadin" if "leadin" in t else ("metadata" if (md_name and md_name in t) else "?")))
-    R.check(order == ["leadin", "metadata", "data"], "writer.TdmsSegment.write::write order", fi.where(),
-            "lead-in, metadata, raw data", "segment parts are written in the order %s" % order)
+    sy = Sym(prog, fi, fi.cls)
+    env = sy.env_at_end()
+    M = ("call", "writer.TdmsSegment.metadata", (), ())
+    # the size handed to leadin()
+    lead_calls = [c for c in walk_body(fi.node) if isinstance(c, ast.Call) and call_name(c) == "self.leadin"]
+    if not lead_calls:
+        raise AnchorMissing("writer.TdmsSegment.write: call of self.leadin")
+    # evaluate the size argument in the environment before the call: re-run statements up to the call
+    pre = []
+    for st in fi.node.body:
+        if any(x is lead_calls[0] for x in ast.walk(st)):
+            break
+        pre.append(st)
+    env0 = sy.env_at_end(pre)
+    size_arg = lead_calls[0].args[1] if len(lead_calls[0].args) > 1 else next((k.value for k in lead_calls[0].keywords if k.arg == "metadata_size"), None)
+    size_val = sy.expr(size_arg, env0) if size_arg is not None else None
+    want_size = None
+    if size_val is not None:
+        sums = collect(size_val, lambda x: isinstance(x, tuple) and x and x[0] == "sum")
+        want_size = bool(sums) and sums[0][1] == ("len", ("attr", sums[0][2], "bytes")) and sums[0][3] == M and not sums[0][4] \
+            and (size_val == sums[0] or size_val == ("binop", "+", tuple(sorted([("const", 0), sums[0]], key=repr))))
+    R.check(bool(want_size), "writer.TdmsSegment.write::metadata size", fi.where(), "metadata_size = sum(len(v.bytes)) over the metadata list that is written",
+            "the metadata size handed to leadin() is `%s`, not the summed byte length of the metadata list" % (show(alpha(size_val))[:120] if size_val else None))
+    # the writes, in order
+    cfg = ctx.cfg(fi)
+    wcalls = sorted([c for c in walk_body(fi.node) if isinstance(c, ast.Call) and call_name(c) == "%s.write" % fi.params[1]], key=lambda c: (c.lineno, c.col_offset))
+    kinds = []
+    for c in wcalls:
+        pre = []
+        for st in fi.node.body:
+            if any(x is c for x in ast.walk(st)):
+                break
+            pre.append(st)
+        v = sy.expr(c.args[0], sy.env_at_end(pre)) if c.args else None
+        comps = collect(v, lambda x: isinstance(x, tuple) and x and x[0] == "comp") if v else []
+        kind = "?"
+        if v and v[0] == "method" and v[1] == "join" and comps and comps[0][1] == ("attr", comps[0][2], "bytes"):
+            src = comps[0][3]
+            if src == M:
+                kind = "metadata"
+            elif src[0] == "call" and src[1] == "writer.TdmsSegment.leadin" or (src[0] == "list" and len(src[1]) == 5):
+                kind = "leadin"
+        kinds.append(kind)
+    R.check(kinds == ["leadin", "metadata"], "writer.TdmsSegment.write::write order", fi.where(), "lead-in bytes, then the metadata list's bytes",
+            "the segment header is written as %s (expected the serialised lead-in followed by the serialised metadata list)" % kinds)
+    wd = cfg.where(lambda n: any(call_name(c) == "self._write_data" for c in node_calls(n)))
+    if not wd:
+        R.violation("writer.TdmsSegment.write::raw data written", fi.where(), "write() never calls self._write_data")
+    else:
+        from .absval import assume_from
+        r_idx = cfg.reach([cfg.entry], assume=assume_from({"self.is_index_file": True}), follow_exc=False)
+        r_dat_ok, _ = cfg.always_passes(cfg.entry, lambda n: n in wd, targets={cfg.exit}, assume=assume_from({"self.is_index_file": False}), follow_exc=False)
+        R.check(not any(n in r_idx for n in wd) and r_dat_ok, "writer.TdmsSegment.write::raw data iff data file", fi.where(),
+                "raw data is written exactly when the segment is not the index twin", "raw data is not written exactly for data files")
+        hdr = cfg.where(lambda n: any(c in wcalls for c in node_calls(n)))
+        R.check(all(cfg.dominated_by(w, lambda n, h=h: n is h)[0] for w in wd for h in hdr), "writer.TdmsSegment.write::data after header", fi.where(),
+                "raw data follows lead-in and metadata", "raw data is not written after the lead-in and metadata")
     # ---- (d) declared data size = written data size
-    ds_f = prog.func("writer.TdmsSegment._data_size")
     wd_f = prog.func("writer.TdmsSegment._write_data")
     rdi = prog.func("writer.TdmsSegment.raw_data_index")
+    OBJ = ("bv", "obj")
 
-    def loop_pred(f):
-        for n in walk_body(f.node):
-            if isinstance(n, ast.For) and dotted(n.iter) == "self.objects":
-                for s in n.body:
-                    if isinstance(s, ast.If):
-                        return unparse(s.test).replace(n.target.id, "<obj>") if isinstance(n.target, ast.Name) else unparse(s.test)
-                return "<unconditional>"
-        return None
-    p1, p2 = loop_pred(ds_f), loop_pred(wd_f)
-    p3 = None
-    for s in rdi.node.body:
-        if isinstance(s, ast.If):
-            p3 = unparse(s.test).replace(rdi.params[1], "<obj>")
+    def norm_pred(p, var):
+        return alpha(_subst(p, var, OBJ))
+    sums = collect(DS, lambda x: isinstance(x, tuple) and x and x[0] == "sum" and x[3] == ("self", "objects"))
+    p_size = norm_pred(sums[0][4], sums[0][2]) if sums else None
+    # _write_data: loop over self.objects with a filter
+    p_write = None
+    for n in walk_body(wd_f.node):
+        if isinstance(n, ast.For) and dotted(n.iter) == "self.objects" and isinstance(n.target, ast.Name):
+            sw = Sym(prog, wd_f, wd_f.cls)
+            conds = []
+            body = n.body
+            while len(body) == 1 and isinstance(body[0], ast.If) and not body[0].orelse:
+                conds.append(sw.expr(body[0].test, {n.target.id: OBJ, "self": ("param", "self")}))
+                body = body[0].body
+            calls_write = any(isinstance(c, ast.Call) and call_name(c) == "write_data" for st in body for c in ast.walk(st))
+            if calls_write:
+                p_write = alpha(tuple(conds))
+    R.check(p_size is not None and p_write is not None and p_size == p_write, "writer.TdmsSegment._data_size/_write_data::same objects", ds_f.where(),
+            "declared and written data select the same objects of self.objects, in order (%s)" % (show(p_size)[:80] if p_size else None),
+            "declared size sums objects selected by %s, data is written for objects selected by %s" % (show(p_size)[:100] if p_size else None, show(p_write)[:100] if p_write else None))
+    # the index is present for exactly these objects
+    idx_guard = None
+    for guards, val, _e in paths:
+        if val is not None and val[0] == "list" and val[1] and val[1][0][0] == "new" and val[1][0][1] == "types.Uint32" and guards:
+            g0 = guards[0]
+            idx_guard = alpha((_subst(g0, ("param", rdi.params[1]), OBJ),))
             break
-    R.check(p1 is not None and p1 == p2, "writer.TdmsSegment._data_size/_write_data::same objects", ds_f.where(),
-            "declared and written data select objects with the same predicate `%s` over self.objects in the same order" % p1,
-            "declared size sums objects selected by `%s`, data is written for objects selected by `%s`" % (p1, p2))
-    R.check(p3 == p1, "writer.TdmsSegment.raw_data_index::same predicate", rdi.where(),
+    R.check(idx_guard is not None and idx_guard == p_size, "writer.TdmsSegment.raw_data_index::same predicate", rdi.where(),
             "the raw data index is present for exactly the objects whose data is written",
-            "the raw data index uses `%s` to decide whether an object has data, the data writer `%s`" % (p3, p1))
+            "the raw data index is present for objects selected by %s, the data writer uses %s" % (show(idx_guard)[:100] if idx_guard else None, show(p_size)[:100] if p_size else None))
+    # per-object declared size: strings and fixed-size types
     ods = prog.func("writer.object_data_size")
     wsv = prog.func("writer.write_string_values")
-    # string branch of object_data_size
-    sbranch = None
-    for s in ods.node.body:
-        if isinstance(s, ast.If) and "String" in unparse(s.test):
-            sbranch = s
-    if sbranch is None:
-        raise AnchorMissing("writer.object_data_size: String branch")
-    def encoding_of(f, scope_stmts, name):
-        """How local `name` is produced: ('direct', codec, fallback-exception) for
-        [s.encode(C) for s in X] with an except-fallback to X, ('helper', qual, shape-of-helper) when a
-        module-level helper does it, else None."""
-        for st in scope_stmts:
-            for n in ast.walk(st):
-                if isinstance(n, ast.Try) and n.body and isinstance(n.body[0], ast.Assign) and any(
-                        isinstance(t, ast.Name) and t.id == name for t in n.body[0].targets):
-                    v = n.body[0].value
-                    codec = None
-                    for x in ast.walk(v):
-                        if isinstance(x, ast.Call) and isinstance(x.func, ast.Attribute) and x.func.attr == "encode" and x.args:
-                            codec = prog.try_fold(x.args[0], f.module)
-                    h = n.handlers[0] if n.handlers else None
-                    fb = unparse(h.type) if h is not None and h.type is not None else None
-                    per_value = isinstance(v, (ast.ListComp, ast.GeneratorExp)) and codec is not None
-                    return ("direct", codec, fb, per_value)
-                if isinstance(n, ast.Assign) and any(isinstance(t, ast.Name) and t.id == name for t in n.targets) and isinstance(n.value, ast.Call):
-                    r = prog.resolve_expr(f.module, n.value.func)
-                    if r and r[0] == "func":
-                        h = r[1]
-                        rets_h = [x for x in walk_body(h.node) if isinstance(x, ast.Return) and x.value is not None]
-                        nm = [x.value.id for x in rets_h if isinstance(x.value, ast.Name)]
-                        inner = encoding_of(h, h.node.body, nm[0]) if nm else None
-                        if inner is None and rets_h and ".encode(" in unparse(h.node):
-                            inner = ("direct", "?", None, False)
-                        return ("helper", h.qual, inner)
-        return None
+    dv = ("param", ods.params[1])
+    dt = ("param", ods.params[0])
+    S = F = None
+    for guards, val, _e in Sym(prog, ods).function_paths():
+        if any(contains(g, lambda x: x == ("class", "types.String")) and g[0] != "not" for g in guards):
+            S = val
+        else:
+            F = val
+    ENC = None
+    ok_s = False
+    if S is not None:
+        s_ = S
+        if s_[0] == "binop" and s_[1] == "+" and ("const", 0) in s_[2]:
+            s_ = [t for t in s_[2] if t != ("const", 0)][0]
+        if s_[0] == "sum" and not s_[4]:
+            elt, bv, ENC = s_[1], s_[2], s_[3]
+            ok_s = elt == ("binop", "+", tuple(sorted([("const", 4), ("len", bv)], key=repr)))
+    R.check(ok_s, "writer.object_data_size::string size", ods.where(), "sum over the encoded strings of 4 (offset) + len(encoded)",
+            "the declared size of string data is `%s`, not the sum over the encoded byte strings of a 4-byte offset plus the encoded length, which is what "
+            "write_string_values writes" % (show(alpha(S))[:160] if S else None))
 
-    def all_encoding_names(f, scope_stmts, expr):
-        out = []
-        for nm in {x.id for x in ast.walk(expr) if isinstance(x, ast.Name)}:
-            e = encoding_of(f, scope_stmts, nm)
-            if e is not None:
-                out.append(e)
-        return out
-    rets = [n for st in sbranch.body for n in walk_shallow(st) if isinstance(n, ast.Return)]
-    enc_ods = None
-    for r in rets:
-        txt = unparse(r.value)
-        encs = all_encoding_names(ods, sbranch.body, r.value)
-        enc_ods = encs[0] if encs else enc_ods
-        four = any(isinstance(x, ast.Constant) and x.value == 4 for x in ast.walk(r.value))
-        R.check(bool(encs) and "len(" in txt and four, "writer.object_data_size::string size `%s`" % txt[:50], ods.where(r),
-                "4 bytes offset + len(encoded string) per value",
-                "the declared size of string data (`%s`) is not computed from the encoded (UTF-8) byte strings plus a 4-byte offset each, which is "
-                "what write_string_values writes: multi-byte characters make the declared size differ from the bytes written" % txt)
-    # write side: the strings written are produced the same way
-    enc_wsv = None
-    for n in walk_body(wsv.node):
-        if isinstance(n, ast.For) and isinstance(n.iter, ast.Name):
-            e = encoding_of(wsv, wsv.node.body, n.iter.id)
-            if e is not None:
-                enc_wsv = e
+    def is_enc(x, src):
+        return x is not None and x[0] == "try" and x[2] == "AttributeError" and x[3] == src and x[1][0] == "comp" and x[1][3] == src and not x[1][4] \
+            and x[1][1] == ("method", "encode", x[1][2], (("const", "utf-8"),), ())
+    R.check(is_enc(ENC, dv), "writer.object_data_size::encoded strings", ods.where(), "str.encode('utf-8') per value, falling back to the given bytes",
+            "the strings measured are `%s`, not each value's UTF-8 encoding (with the bytes fallback)" % (show(alpha(ENC))[:140] if ENC else None))
+    R.check(F is not None and same(F, ("binop", "*", tuple(sorted([("attr", dt, "size"), ("len", dv)], key=repr)))), "writer.object_data_size::fixed-size types", ods.where(),
+            "size x number of values", "fixed-size data is declared as `%s`" % (show(alpha(F))[:100] if F else None))
+    # write side of strings: loops over the same encoded list, one 4-byte offset and the bytes themselves per value
+    sw = Sym(prog, wsv)
+    wenv = {}
+    fparam = wsv.params[0]
+    sparam = ("param", wsv.params[1])
+    kinds = []
+    pre = []
+    for st in wsv.node.body:
+        if isinstance(st, ast.For):
+            env_now = sw.env_at_end(pre)
+            it = sw.expr(st.iter, env_now)
+            writes = [c for x in st.body for c in ast.walk(x) if isinstance(c, ast.Call) and call_name(c) == "%s.write" % fparam]
+            tvar = st.target.id if isinstance(st.target, ast.Name) else None
+            for c in writes:
+                a = c.args[0]
+                if isinstance(a, ast.Name) and a.id == tvar:
+                    kinds.append(("bytes", it))
+                elif isinstance(a, ast.Attribute) and a.attr == "bytes" and isinstance(a.value, ast.Call) and dotted(a.value.func) == "Uint32":
+                    kinds.append(("offset", it))
+                else:
+                    kinds.append(("?", it))
+        pre.append(st)
 
-    def canon(e):
-        if e is None:
-            return None
-        if e[0] == "helper":
-            return ("helper", e[1])
-        return e
-    good = enc_ods is not None and canon(enc_ods) == canon(enc_wsv)
-    if good and enc_ods[0] == "direct":
-        good = enc_ods[1] == "utf-8" and enc_ods[3]
-    if good and enc_ods[0] == "helper":
-        inner = enc_ods[2]
-        good = inner is not None and inner[0] == "direct" and inner[1] in ("utf-8", "?") and (inner[3] or inner[1] == "?")
-    R.check(good, "writer.object_data_size/write_string_values::same encoding", ods.where(),
-            "both sides obtain the byte strings the same way: str.encode('utf-8') per value, falling back to the given bytes",
-            "size computation and writing encode string values differently, or not per value with UTF-8 (%s vs %s)" % (enc_ods, enc_wsv))
-    helper_funcs = [prog.functions[e[1]] for e in (enc_ods, enc_wsv) if e is not None and e[0] == "helper" and e[1] in prog.functions]
+    def over_enc(it):
+        if is_enc(it, sparam):
+            return True
+        # accumulate(len(s) for s in ENC)
+        inner = collect(it, lambda x: is_enc(x, sparam))
+        return bool(inner) and it[0] == "call" and it[1] in ("accumulate", "itertools.accumulate")
+    R.check(sorted(k for k, _ in kinds) == ["bytes", "offset"] and all(over_enc(it) for _, it in kinds), "writer.write_string_values::offsets then bytes over the encoded strings", wsv.where(),
+            "one Uint32 end offset and the encoded bytes per value, over the same encoded list", "string data is written as %s" % [(k, show(alpha(it))[:60]) for k, it in kinds])
+    R.check(_type_size(prog, wmod, "Uint32") == 4, "writer.write_string_values::4-byte offsets", wsv.where(), "Uint32 offsets match the 4 bytes per value declared", "offset type is not 4 bytes")
+    # running offset = cumulative encoded length
+    t = unparse(wsv.node)
+    R.check(("+= len(" in t) or ("accumulate(" in t), "writer.write_string_values::cumulative offsets", wsv.where(), "offsets are running totals of the encoded lengths",
+            "string offsets are not cumulative encoded lengths")
+    helper_funcs = [f for f in prog.functions.values() if f.module is wmod and f.name.startswith("_") and ".encode(" in unparse(f.node)]
     for f in [ods, wsv] + helper_funcs:
         bad = [x for x in ast.walk(f.node) if (isinstance(x, ast.Attribute) and dotted(x) in ("np.char", "np.str_", "np.bytes_", "np.unicode_"))
                or (isinstance(x, ast.Call) and call_name(x) in ("np.char.encode", "np.char.str_len", "np.asarray") and "str" in unparse(x))]
         R.check(not bad, "%s::no fixed-width NumPy strings" % f.qual, f.where(),
                 "values are encoded one by one", "string values pass through a fixed-width NumPy string array (`%s`), which drops trailing NUL "
                 "characters and measures characters, not bytes" % (unparse(bad[0])[:60] if bad else ""))
-    offs = [c for c in walk_body(wsv.node) if isinstance(c, ast.Call) and isinstance(c.func, ast.Name) and c.func.id == "Uint32"]
-    R.check(len(offs) == 1 and _type_size(prog, wmod, "Uint32") == 4, "writer.write_string_values::4-byte offsets", wsv.where(),
-            "one Uint32 end offset per value", "string offsets are not written as one Uint32 per value")
-    rest = [s for s in ods.node.body if s is not sbranch and isinstance(s, ast.Return)]
-    R.check(len(rest) == 1 and unparse(rest[0].value).replace(" ", "") in ("data_type.size*len(data_values)", "len(data_values)*data_type.size"),
-            "writer.object_data_size::fixed-size types", ods.where(), "size * number of values",
-            "fixed-size data is declared as `%s`" % (unparse(rest[0].value) if rest else None))
 
 
 @rule("BL6", "the index file is the data file minus raw data with the tag replaced", floor=5)
